@@ -114,14 +114,8 @@ Theorem decode_is_parser : forall a r ic lc n,
 Proof. exact decode_is_parser_top. Qed.
 
 (* ---- the hypotheses are satisfiable: non-trivial well-formed values ---------------- *)
-(* a ClientHello with session id, two suites, SNI + supported_groups + an unknown extension *)
-Definition ex_client_hello : val :=
-  VPair (VInt 1) (VPair (VInt 3) (VPair (VInt 3) (VPair (VBytes (repeat 7 32)) (VPair (VBytes [1;2;3])
-   (VPair (vlist [VInt 4865; VInt 49199]) (VPair (vlist [VInt 0])
-   (VSome (vlist [
-      VTag 0 (VSome (vlist [VPair (VInt 0) (VBytes [97;46;98])]));
-      VTag 10 (VSome (vlist [VInt 29; VInt 23]));
-      VTag 4660 (VBytes [1;2;3;4;5])])))))))).
+(* Model/C15_Messages.v ex_client_hello: a ClientHello with session id, two suites, SNI +
+   supported_groups + an unknown extension *)
 Example ex_client_hello_encodes :
   exists bs, encode fmt_ClientHello ex_client_hello = Ok bs /\ zlen bs = 83 /\
              decode fmt_ClientHello bs = Ok (ex_client_hello, []).
